@@ -219,7 +219,7 @@ impl PatProp for VsRegex {
 
 fn flag_variants(bases: &[Node]) -> Vec<Node> {
     let mut out = vec![];
-    let groups: [(&str, &str); 8] = [("i", ""), ("s", ""), ("m", ""), ("U", ""), ("x", ""), ("is", ""), ("", "i"), ("m", "s")];
+    let groups: [(&str, &str); 12] = [("i", ""), ("s", ""), ("m", ""), ("U", ""), ("x", ""), ("is", ""), ("", "i"), ("m", "s"), ("i", "sm"), ("", "is"), ("s", "im"), ("ms", "iU")];
     for b in bases {
         for (on, off) in groups {
             // scoped group around the whole pattern, inline at the start, and around / inside the first child
@@ -237,6 +237,10 @@ fn flag_variants(bases: &[Node]) -> Vec<Node> {
                     w.insert(1, SetFlags(on.into(), off.into()));
                     out.push(Concat(w));
                 }
+            }
+            if !on.is_empty() && off.is_empty() {
+                // switch on, later switch everything off again inline: (?is) X (?-is) . a
+                out.push(super::api::flatten(Concat(vec![SetFlags(on.into(), "".into()), b.clone(), SetFlags("".into(), on.into()), Any, Lit('a')])));
             }
             if let Group(c) = b {
                 if !on.is_empty() {
